@@ -105,11 +105,12 @@ theorem write_read_file (sha1 : Bytes → Bytes) (hsha : ∀ x, (sha1 x).length 
   writeFile_readback sha1 hsha s o threads ht hok hfit hsize hno
 
 /-- The cache tree gitoxide writes reads back as the same tree in canonical form (children sorted by
-name — which a tree that came out of the decoder already is). -/
-theorem tree_ext_write_read (t : Tree) (hwf : WfTree t) :
+name — which a tree that came out of the decoder already is), up to the decoder's nesting limit
+of 4096. -/
+theorem tree_ext_write_read (t : Tree) (hwf : WfTree t) (hdepth : treeHeight t ≤ maxDepth) :
     treeDecodeOpt (writeTreeEntry t) = some (canonTree t) := by
   rw [writeTreeEntry_eq]
-  exact treeDecodeOpt_encoded t hwf
+  exact treeDecodeOpt_encoded t hwf hdepth
 
 /-- a well-formed entry with a path of `n` bytes -/
 def sample (n : Nat) (flags : Nat) : Entry :=
